@@ -242,6 +242,46 @@ fn ring_program(rng: &mut Rng, st: ScalarType) -> Prog {
     Prog { ctx, g, input_types: vec![t; ni], attempts: vec![] }
 }
 
+/// programs `create_tuple(e1, .., ek)` (k = 1..3) over elementwise e_i of one shape: add / sub / mul
+/// over the inputs and at most one constant, as in `ring_program`; a component may be an input or
+/// a constant itself, and components may share subterms.  `fixed` = the program of the seeded
+/// planner defect: create_tuple(a*b, c).
+fn tuple_program(rng: &mut Rng, st: ScalarType, fixed: bool) -> Prog {
+    let ctx = create_context().unwrap();
+    let g = ctx.create_graph().unwrap();
+    let shape = small_shape(rng);
+    let t = array_type(shape, st);
+    let ni = if fixed { 3 } else { 1 + rng.below(3) as usize };
+    let mut pool: Vec<Node> = (0..ni).map(|_| g.input(t.clone()).unwrap()).collect();
+    let comps: Vec<Node> = if fixed {
+        vec![pool[0].multiply(pool[1].clone()).unwrap(), pool[2].clone()]
+    } else {
+        if rng.chance(1, 3) { pool.push(g.constant(t.clone(), gen_value(&t, rng)).unwrap()); }
+        let mut dep: Vec<Node> = pool[..ni].to_vec();
+        let n_ops = 1 + rng.below(4);
+        for _ in 0..n_ops {
+            let a = rng.pick(&dep).clone();
+            let b = rng.pick(&pool).clone();
+            let (a, b) = if rng.chance(1, 2) { (a, b) } else { (b, a) };
+            let n = match rng.below(4) { 0 => a.add(b), 1 => a.subtract(b), _ => a.multiply(b) }.unwrap();
+            pool.push(n.clone());
+            dep.push(n);
+        }
+        let k = 1 + rng.below(3) as usize;
+        // the last operation is always a component, the others are drawn from everything built
+        let mut cs: Vec<Node> = (1..k).map(|_| rng.pick(&pool).clone()).collect();
+        let pos = rng.below(k as u64) as usize;
+        cs.insert(pos, pool.last().unwrap().clone());
+        cs
+    };
+    let o = g.create_tuple(comps).unwrap();
+    g.set_output_node(o).unwrap();
+    g.finalize().unwrap();
+    ctx.set_main_graph(g.clone()).unwrap();
+    ctx.finalize().unwrap();
+    Prog { ctx, g, input_types: vec![t; ni], attempts: vec![] }
+}
+
 fn owners_no_shared(n: usize, rng: &mut Rng) -> Vec<IOStatus> {
     (0..n).map(|_| match rng.below(5) { 0 => IOStatus::Party(0), 1 => IOStatus::Party(1), 2 => IOStatus::Party(2), 3 => IOStatus::Public, _ => IOStatus::Party(rng.below(3)) }).collect()
 }
@@ -327,8 +367,130 @@ fn maskcheck_cases(tier: &str, seed: u64, out: &mut Out) {
     }
 }
 
+/// `(mkNode op deps [] annots ty)` of node n with its dependencies replaced
+fn node_coq_with_deps(n: &Node, deps: &[u64]) -> String {
+    let an: Vec<String> = n.get_annotations().unwrap_or_default().iter().map(annot_coq).collect();
+    format!("(mkNode {} {} [] [{}] {})", op_coq(&n.get_operation()), list_u64(deps), an.join("; "), ty(&n.get_type().unwrap()))
+}
+
+/// T:maskcheck / T:viewcover / T:maskcheck-mutant on compiled programs `create_tuple(e1, .., ek)`:
+/// the reshared shares are tuples sent as one message, the revealed output is a tuple of Add-trees
+/// over TupleGet's of the delivered share tuples.
+fn tuple_cases(tier: &str, seed: u64, out: &mut Out) {
+    let mut rng = Rng::new(seed ^ 0xC03 ^ 0x7091E);
+    let modes = inline_modes();
+    let all_outs = output_subsets();
+    // every (output list, inline mode) pair, `rounds` programs each
+    let rounds = match tier { "thorough" => 4, "search" => 2, _ => 1 };
+    let int_sts = [UINT8, INT16, UINT32, INT32, UINT64, INT64, UINT128];
+    let dump = std::env::var("C03_DUMP").is_ok();
+    let n_cfg = all_outs.len() * modes.len();
+    for i in 0..(rounds * n_cfg) {
+        let st = if i % 5 == 4 { BIT } else { *rng.pick(&int_sts) };
+        // every fourth program is the one of the seeded planner defect: create_tuple(a*b, c)
+        let fixed = i % 4 == 0;
+        let p = tuple_program(&mut rng, st, fixed);
+        let owners = owners_no_shared(p.input_types.len(), &mut rng);
+        let outs = all_outs[i % all_outs.len()].clone();
+        let (mname, mode) = modes[(i / all_outs.len()) % modes.len()].clone();
+        let c = match compile(&p, &owners, &outs, mode) { Outcome::Ok(c) => c, _ => { out.stat("tuple-compile:notOk"); continue; } };
+        out.stat("tuple-compile:Ok");
+        out.stat(&format!("tuple-outputs:{}", outs.len()));
+        let ops_desc: Vec<String> = p.g.get_nodes().iter().map(|n| op_name(&n.get_operation())).collect();
+        let arity = p.g.get_output_node().unwrap().get_node_dependencies().len();
+        out.stat(&format!("tuple-arity:{}", arity));
+        let private = owners.iter().any(|o| *o != IOStatus::Public);
+        let nodes = nodes_coq(&c.g);
+        let cfg = cfg_coq(&owners, &outs, &c.g);
+        let oid = c.g.get_output_node().unwrap().get_id();
+        let gnodes = c.g.get_nodes();
+        if dump { eprintln!("tuple program {} ops {:?} owners {:?} outs {:?} inline {}", i, ops_desc, owners.iter().map(status_str).collect::<Vec<_>>(), outs.iter().map(status_str).collect::<Vec<_>>(), mname); dump_graph(&c.g); }
+        let is_tuple = |n: &Node| matches!(n.get_type().unwrap(), Type::Tuple(_));
+        for observer in 0..3u64 {
+            let n_deliv = gnodes.iter().filter(|n| sends_of(n).iter().any(|(s, r)| *r == observer && *s != observer)).count();
+            let n_tdeliv = gnodes.iter().filter(|n| is_tuple(n) && sends_of(n).iter().any(|(s, r)| *r == observer && *s != observer)).count();
+            out.stat(&format!("tuple-deliveries-to-observer:{}", std::cmp::min(n_deliv, 12)));
+            out.stat(&format!("tuple-valued-deliveries-to-observer:{}", std::cmp::min(n_tdeliv, 6)));
+            let desc = json!({"stream": "tuple", "ops": ops_desc, "st": scalar(st), "owners": owners.iter().map(status_str).collect::<Vec<_>>(), "outputs": outs.iter().map(status_str).collect::<Vec<_>>(), "inline": mname, "observer": observer, "compiled_nodes": gnodes.len(), "deliveries": n_deliv, "tuple_deliveries": n_tdeliv});
+            out.case("T:maskcheck", format!("isSome (maskcheck {} {} {} {})", cfg, observer, nodes, oid), "true".into(), desc.clone(), private && n_deliv > 0);
+            out.case("T:viewcover", format!("viewcover {} {} {}", cfg, observer, nodes), "true".into(), desc, private && n_deliv > 0);
+        }
+        // mutants: a delivered tuple share = NOP+Send(s, r) of CreateTuple [.., Add [x, alpha], ..] where
+        // alpha = Subtract [PRF, PRF] is the resharing mask and x = Add [Multiply, Multiply] the bare
+        // 3-out-of-3 product share of party s
+        let node_strs: Vec<String> = gnodes.iter().map(node_coq).collect();
+        let dep_ids = |n: &Node| -> Vec<u64> { n.get_node_dependencies().iter().map(|d| d.get_id()).collect() };
+        let is_op = |n: &Node, o: &str| op_name(&n.get_operation()) == o;
+        // (sender, receiver, NOP, CreateTuple, component, masked component node, bare share x)
+        let mut sites: Vec<(u64, u64, Node, Node, usize, Node, Node)> = vec![];
+        for n in gnodes.iter() {
+            if !is_op(n, "NOP") || sends_of(n).len() != 1 { continue; }
+            let ct = n.get_node_dependencies()[0].clone();
+            if !is_op(&ct, "CreateTuple") { continue; }
+            let (s_, r_) = sends_of(n)[0];
+            for (j, cj) in ct.get_node_dependencies().iter().enumerate() {
+                if !is_op(cj, "Add") { continue; }
+                let d = cj.get_node_dependencies();
+                if d.len() != 2 || !is_op(&d[1], "Subtract") || !d[1].get_node_dependencies().iter().all(|q| is_op(q, "PRF")) { continue; }
+                let x = d[0].clone();
+                if !is_op(&x, "Add") || !x.get_node_dependencies().iter().all(|q| is_op(q, "Multiply")) { continue; }
+                sites.push((s_, r_, n.clone(), ct.clone(), j, cj.clone(), x));
+            }
+        }
+        out.stat(&format!("tuple-mutant-sites:{}", std::cmp::min(sites.len(), 9)));
+        if sites.is_empty() { continue; }
+        let owners_s: Vec<String> = owners.iter().map(status_str).collect();
+        let outs_s: Vec<String> = outs.iter().map(status_str).collect();
+        // (T1) one component of one delivered tuple is the bare product share
+        {
+            let (s_, r_, nop, ct, j, _cj, x) = rng.pick(&sites).clone();
+            let mut deps = dep_ids(&ct);
+            deps[j] = x.get_id();
+            let mut ns = node_strs.clone();
+            ns[ct.get_id() as usize] = node_coq_with_deps(&ct, &deps);
+            let desc = json!({"mutant": "tuple-component-unmasked", "ops": ops_desc, "owners": owners_s, "outputs": outs_s, "sender": s_, "observer": r_, "delivered_node": nop.get_id(), "tuple_node": ct.get_id(), "component": j, "bare_share": x.get_id(), "observer_is_output_party": outs.contains(&IOStatus::Party(r_))});
+            out.stat(&format!("tuple-mutant-observer-is-output-party:{}", outs.contains(&IOStatus::Party(r_))));
+            out.case("T:maskcheck-mutant", format!("isSome (maskcheck {} {} [{}] {})", cfg, r_, ns.join("; "), oid), "false".into(), desc, true);
+        }
+        // (T2) "the planner forgot to reshare": the same component of all three share tuples is the bare
+        // product share; every receiver must be refused
+        {
+            let j0 = rng.pick(&sites).4;
+            let same: Vec<_> = sites.iter().filter(|t| t.4 == j0).cloned().collect();
+            if same.iter().map(|t| t.0).collect::<HashSet<u64>>().len() == 3 {
+                let mut ns = node_strs.clone();
+                for (_, _, _, ct, j, _, x) in same.iter() {
+                    let mut deps = dep_ids(ct);
+                    deps[*j] = x.get_id();
+                    ns[ct.get_id() as usize] = node_coq_with_deps(ct, &deps);
+                }
+                let observers: Vec<u64> = if tier == "quick" { vec![rng.below(3)] } else { vec![0, 1, 2] };
+                for obs in observers {
+                    let desc = json!({"mutant": "tuple-component-never-reshared", "ops": ops_desc, "owners": owners_s, "outputs": outs_s, "component": j0, "observer": obs, "observer_is_output_party": outs.contains(&IOStatus::Party(obs))});
+                    out.case("T:maskcheck-mutant", format!("isSome (maskcheck {} {} [{}] {})", cfg, obs, ns.join("; "), oid), "false".into(), desc, true);
+                }
+            } else { out.stat("tuple-mutant:not-all-three-senders"); }
+        }
+        // (T3) a reshared tuple share is sent to one extra party, which then holds two of the three
+        // reshared shares of every component (observers that are not output parties)
+        {
+            let (s_, _r, nop, _ct, _j, _cj, _x) = rng.pick(&sites).clone();
+            let obs = (s_ + 1) % 3;
+            if !outs.contains(&IOStatus::Party(obs)) {
+                let mut ns = node_strs.clone();
+                let mut an: Vec<String> = nop.get_annotations().unwrap_or_default().iter().map(annot_coq).collect();
+                an.push(format!("(ASend {} {})", s_, obs));
+                ns[nop.get_id() as usize] = format!("(mkNode ONOP {} [] [{}] {})", list_u64(&dep_ids(&nop)), an.join("; "), ty(&nop.get_type().unwrap()));
+                let desc = json!({"mutant": "tuple-share-sent-to-extra-party", "ops": ops_desc, "owners": owners_s, "outputs": outs_s, "mutated_node": nop.get_id(), "observer": obs});
+                out.case("T:maskcheck-mutant", format!("isSome (maskcheck {} {} [{}] {})", cfg, obs, ns.join("; "), oid), "false".into(), desc, true);
+            }
+        }
+    }
+}
+
 pub fn run(tier: &str, seed: u64, out: &mut Out) {
     maskcheck_cases(tier, seed, out);
+    tuple_cases(tier, seed, out);
     let cfgs: Vec<(usize, Vec<IOStatus>, Vec<IOStatus>)> = vec![
         (2, vec![IOStatus::Party(0), IOStatus::Party(1)], vec![IOStatus::Party(2)]),
         (4, vec![IOStatus::Party(0), IOStatus::Party(1), IOStatus::Public], vec![IOStatus::Party(2)]),
